@@ -28,6 +28,15 @@ class Plugin:
         return True
 
 
+RUN_START = {}    # def id -> first line of its `run()` (lines before it are the definition itself)
+
+PANIC_HOOK = '''    ::std::panic::set_hook(Box::new(|info| {
+        let line = info.location().map(|l| l.line()).unwrap_or(0);
+        let msg: String = info.to_string().chars().map(|c| if c.is_ascii_alphanumeric() || " _:.,-".contains(c) { c } else { ' ' }).collect();
+        println!("[\\"panic_at\\",{},\\"{}\\"]", line, msg);
+    }));'''
+
+
 def build_program(defs, plugin, rng, cap_vals):
     parts = [gen.PRELUDE + getattr(plugin, "prelude_extra", "")]
     mains = []
@@ -38,15 +47,17 @@ def build_program(defs, plugin, rng, cap_vals):
         vals = [] if getattr(plugin, "no_values", False) else gen.value_tuples(rng, td, cap_vals)
         vals_by_def[td.id] = vals
         body = plugin.observe(td, vals)
-        src = "mod d%d {\n use super::prelude::*; %s\n%s\n pub fn run() {\n%s\n }\n}\n" % (
-            td.id, getattr(plugin, "mod_uses", ""), td.render(), body)
+        head = "mod d%d {\n use super::prelude::*; %s\n%s\n" % (td.id, getattr(plugin, "mod_uses", ""), td.render())
+        src = head + " pub fn run() {\n%s\n }\n}\n" % body
         n = src.count("\n")
         line_map.append((cur, cur + n, td.id))
+        RUN_START[td.id] = cur + head.count("\n")
         cur += n
         parts.append(src)
-        mains.append("    d%d::run();" % td.id)
+        # a panic inside one definition's observations must not hide the others (and is itself an observation)
+        mains.append("    if ::std::panic::catch_unwind(|| d%d::run()).is_err() { println!(\"[\\\"panic\\\",%d]\"); }" % (td.id, td.id))
     extra_tables = plugin.tables() if hasattr(plugin, "tables") else ""
-    parts.append("fn main() {\n%s\n%s\n%s\n}\n" % (gen.leaf_table_code(), extra_tables, "\n".join(mains)))
+    parts.append("fn main() {\n%s\n%s\n%s\n%s\n}\n" % (PANIC_HOOK, gen.leaf_table_code(), extra_tables, "\n".join(mains)))
     return "".join(parts), line_map, vals_by_def
 
 
@@ -102,6 +113,24 @@ def run_b1(prop_id, plugin, n_defs, cap_vals, seed, corpus=None):
             tie["broken_details"].append(p.stderr[-2000:])
             return tie
         impl_lines = [json.loads(l) for l in p.stdout.splitlines() if l.startswith("[")]
+        panics = [l for l in impl_lines if l[0] in ("panic", "panic_at")]
+        impl_lines = [l for l in impl_lines if l[0] not in ("panic", "panic_at")]
+        last_at = None
+        for l in panics:
+            if l[0] == "panic_at":
+                last_at = l
+                continue
+            td = by_id.get(l[1])
+            line, msg = (last_at[1], last_at[2]) if last_at else (0, "")
+            in_definition = td is not None and def_of_line(line_map, line) == td.id and line < RUN_START.get(td.id, 0)
+            if in_definition:
+                # the panic is located in the type definition, i.e. in code the derive generated from it
+                tie["failing"].append({"what": "the generated impl panics at run time on an accepted, well-typed definition",
+                                       "rust_source": td.render(), "panic": msg, "line_in_program": line})
+            else:
+                tie["broken"].append("B1: observation code of definition %s panicked at line %s: %s" % (l[1], line, msg[:200]))
+                tie["broken_details"].append({"rust_source": td.render() if td else None})
+            last_at = None
     finally:
         import shutil
         shutil.rmtree(d, ignore_errors=True)
@@ -156,7 +185,10 @@ def run_b1(prop_id, plugin, n_defs, cap_vals, seed, corpus=None):
     if bad_thm and not bad_spec:
         tie["broken"].append("harness: model and spec differ on %d observations although they are proved equal (driver bug or ill-formed input)" % len(bad_thm))
         tie["broken_details"] += [{"observation": o, "model": m, "spec": s} for o, m, s in bad_thm[:3]]
-    config_tie(tie, plugin, defs)
+    real = config_tie(tie, plugin, defs)
+    if real:
+        e2e_tie(tie, plugin, defs, real, tables, obs)
+    tie["broken"] = tie["broken"][:4]
     return tie
 
 
@@ -174,7 +206,7 @@ def config_tie(tie, plugin, defs):
         model = attr.expand_model(real)
     except (common.BuildError, RuntimeError) as e:
         tie["broken"].append("B5: " + str(e)[:300])
-        return
+        return None
     checked = 0
     for td in defs:
         r, m = real.get(td.id), model.get(td.id)
@@ -304,7 +336,63 @@ def config_tie(tie, plugin, defs):
     tie["rule"] = tie.get("rule", "") + ("; B5: the same definitions are expanded in-process and syn's records fed to the attribute-layer model "
                                         "(Expand.lean): per trait its per-field configuration (ignore / method / rank / rename / designated "
                                         "field) must equal what the generator wrote")
-    tie["broken"] = tie["broken"][:4]
+    return real
+
+
+E2E_OPS = ("eq", "ne", "cmp", "pcmp", "cmpw", "pcmpw", "hash", "eqhash", "clone", "clonefrom")
+E2E_OFFSET = 1000000
+
+
+def e2e_tie(tie, plugin, defs, real, tables, obs):
+    """B6 - end to end: the observations are answered once more by the model with every attribute-determined part of the
+    configuration (ignore / method / rank per field, the carrier trait, Copy next to Clone, Ord next to PartialOrd) taken not
+    from what the generator intended but from the attribute-layer model run on syn's records of the real tokens and converted by
+    `Bridge.lean` - the composition the theorems of Props/E2E.lean are about. Its answers must equal the implementation's."""
+    sel_ops = [o for o in obs if o[0] in E2E_OPS]
+    if not sel_ops:
+        return
+    methods = [["%s_m_%s" % (k, ty), i] for k in ("eq", "cmp", "pcmp", "hash", "clone", "dbg") for i, ty in enumerate(gen.METHOD_LEAVES)]
+    lines = [json.dumps(l) for l in tables]
+    want = {}
+    for td in defs:
+        r = real.get(td.id)
+        if not r or r.get("outcome") != "ok" or "input" not in r:
+            continue
+        lines.append(json.dumps(["defe2e", td.id + E2E_OFFSET, td.to_json(plugin.driver_traits), r["input"], methods]))
+        want[td.id] = td
+    sel = [o for o in sel_ops if o[1] in want]
+    for o in sel:
+        l = list(o[:-1])
+        l[1] += E2E_OFFSET
+        lines.append(json.dumps(l))
+    out = common.run_driver(lines)
+    acks = [l for l in out if l and l[0] == "defe2e"]
+    res = [l for l in out if l and l[0] in E2E_OPS]
+    errs = [l for l in out if l and l[0] == "error"]
+    refused = [l for l in acks if l[2] != "ok"]
+    by_id = {td.id: td for td in defs}
+    for l in refused[:2]:
+        tie["broken"].append("B6: the end-to-end model refuses a definition the implementation accepts: %s" % l[2])
+        tie["broken_details"].append({"rust_source": by_id[l[1] - E2E_OFFSET].render(bare=True)})
+    bad_ids = {l[1] for l in refused}
+    sel = [o for o in sel if o[1] + E2E_OFFSET not in bad_ids]
+    res = [l for l in res if l[1] not in bad_ids]
+    if errs or len(res) != len(sel):
+        tie["broken"].append("B6: driver answered %d of %d end-to-end observations (%s)" % (len(res), len(sel), errs[:2]))
+        return
+    agree = getattr(plugin, "agree", lambda a, b: a == b)
+    bad = []
+    for o, r in zip(sel, res):
+        impl, model = plugin.canon(o[-1]), r[-2]
+        if not agree(impl, model):
+            bad.append((o, model))
+    tie["extra"]["end_to_end_definitions"] = len(want) - len(bad_ids)
+    tie["extra"]["end_to_end_observations"] = len(sel)
+    if bad and not tie["failing"]:
+        tie["broken"].append("B6: the end-to-end model (attributes -> configuration -> body) disagrees with the implementation on %d observations" % len(bad))
+        tie["broken_details"] += [{"rust_source": by_id[o[1]].render(bare=True), "observation": o, "model_end_to_end": m} for o, m in bad[:3]]
+    tie["rule"] = tie.get("rule", "") + ("; B6: every observation is answered a second time by the composed model of Props/E2E.lean - syn's records of "
+                                        "the real tokens -> attribute-layer scan -> Bridge -> generated body -> evaluation - and must equal the implementation")
 
 
 def histogram(defs):
